@@ -191,6 +191,18 @@ def obligations(tier, seed):
                     obs.append(Ob("user part %s over %s sig=%s/%s n=%d" % (role, e, sig[0], sig[1], F + s), ob_part,
                                   dict(src="user", role=role, enzyme=e, sig=list(sig), n=F + s), samples=4,
                                   cost=(F + s) ** 3, group="user %s %s %s" % (role, e, sig)))
+    # cutters whose recognition site carries ambiguity codes (5' and 3' overhangs)
+    for e, role in ([("AspBHI", "module"), ("TsoI", "vector")] if tier == "quick" else
+                    [("AspBHI", "module"), ("AspBHI", "vector"), ("TsoI", "module"), ("TsoI", "vector"), ("LpnPI", "module"),
+                     ("Eco57MI", "module")]):
+        ovl = Geometry(st.enzyme(e)).ovl
+        for sig in [("NNNN", "ACGT"), ("RYSW", "NNNN")][: 1 if tier == "quick" else 2]:
+            sig = (sig[0][:ovl], sig[1][:ovl])
+            K = user_class(st, role, e, sig)
+            F = fixed_letters(K.structure())
+            obs.append(Ob("user part %s over %s (ambiguous site) sig=%s/%s n=%d" % (role, e, sig[0], sig[1], F + 1), ob_part,
+                          dict(src="user", role=role, enzyme=e, sig=list(sig), n=F + 1), samples=4, cost=(F + 1) ** 3,
+                          group="user %s %s %s" % (role, e, sig)))
     for role in ("module", "vector"):
         B = user_family(st, role, "BsaI")
         F = fixed_letters(generic_class(st, role, "BsaI").structure())
